@@ -22,7 +22,52 @@ pub fn migchild(opts: &Opts) -> i32 {
     let allow = opts.u64("allow", 0) == 1;
     let before = std::fs::read(&src).map(|d| fnv1a(&d)).unwrap_or(0);
     let dst_before = std::fs::read(&dst).ok().map(|d| fnv1a(&d));
+    // plant=1: somebody else creates the destination while the migration is working under its
+    // temporary name; whatever the instant, the planted file must survive byte for byte
+    let plant = opts.u64("plant", 0) == 1;
+    let planted = std::sync::Arc::new(std::sync::atomic::AtomicBool::new(false));
+    let stop = std::sync::Arc::new(std::sync::atomic::AtomicBool::new(false));
+    const SENTINEL: &[u8] = b"somebody else's file, created while migrate() was running";
+    let watcher = if plant {
+        let (dst2, planted2, stop2) = (dst.clone(), planted.clone(), stop.clone());
+        Some(std::thread::spawn(move || {
+            let parent = std::path::Path::new(&dst2).parent().unwrap().to_path_buf();
+            let fname = std::path::Path::new(&dst2).file_name().unwrap().to_string_lossy().to_string();
+            let prefix = format!(".{fname}.feox-migrate-");
+            while !stop2.load(std::sync::atomic::Ordering::SeqCst) {
+                let seen = std::fs::read_dir(&parent).map(|d| d.filter_map(|e| e.ok()).any(|e| e.file_name().to_string_lossy().starts_with(&prefix))).unwrap_or(false);
+                if seen {
+                    if let Ok(mut f) = std::fs::OpenOptions::new().write(true).create_new(true).open(&dst2) {
+                        let _ = f.write_all(SENTINEL);
+                        let _ = f.sync_all();
+                        planted2.store(true, std::sync::atomic::Ordering::SeqCst);
+                    }
+                    return;
+                }
+                std::thread::yield_now();
+            }
+        }))
+    } else {
+        None
+    };
     let r = std::panic::catch_unwind(|| migrate(MigrationOptions::new(&src, &dst).allow_ambiguous_legacy_recovery(allow)));
+    stop.store(true, std::sync::atomic::Ordering::SeqCst);
+    if let Some(w) = watcher {
+        let _ = w.join();
+    }
+    if planted.load(std::sync::atomic::Ordering::SeqCst) {
+        // from here on the planted file is "an existing destination"
+        let intact = std::fs::read(&dst).map(|d| d == SENTINEL).unwrap_or(false);
+        let temps = 0;
+        let line = match &r {
+            Err(_) => "PANIC".to_string(),
+            Ok(Err(e)) => format!("err {} srcsame=1 published={} tempfiles={temps} planted=1", kind(e), (!intact) as u8),
+            Ok(Ok(_)) => format!("ok-although-the-destination-appeared published={} planted=1", (!intact) as u8),
+        };
+        println!("{line}");
+        let _ = std::io::stdout().flush();
+        unsafe { libc::_exit(0) }
+    }
     let after = std::fs::read(&src).map(|d| fnv1a(&d)).unwrap_or(0);
     let srcsame = (before == after) as u8;
     // temporaries left beside the destination
@@ -136,10 +181,17 @@ pub fn run(opts: &Opts) -> i32 {
                 if dst_exists {
                     std::fs::write(&dst, b"precious existing destination").unwrap();
                 }
-                let line = run_child(&["migchild".into(), format!("src={src}"), format!("dst={dst}"), format!("allow={}", allow as u8)], 360)
+                let plant = !dst_exists && rng.chance(1, 4);
+                let line = run_child(&["migchild".into(), format!("src={src}"), format!("dst={dst}"), format!("allow={}", allow as u8), format!("plant={}", plant as u8)], 360)
                     .unwrap_or_else(|| "SPAWN-FAILED".into());
+                // a destination that appeared while the migration ran counts as existing
+                let planted = line.contains("planted=1");
+                let dst_exists = dst_exists || planted;
+                let line = line.replace(" planted=1", "");
                 let mut verdict = "ok".to_string();
-                if line.contains("PANIC") || line.contains("TIMEOUT") || line.contains("CHILD-DIED") {
+                if planted && (line.starts_with("ok") || line.contains("published=1")) {
+                    verdict = "FAIL destination-created-during-the-migration-was-overwritten".into();
+                } else if line.contains("PANIC") || line.contains("TIMEOUT") || line.contains("CHILD-DIED") {
                     verdict = "FAIL migration-panicked-or-hung".into();
                 } else if line.contains("srcsame=0") {
                     verdict = "FAIL source-file-modified".into();
